@@ -39,7 +39,13 @@ MANIFEST = dict(
           "the original as it was when persisted (reference from a fresh world), what is restored afterwards those of the edited original; followed up "
           "with one-step and TWO-step programs whose second step is a unit STRING resolved in the registry the first result is bound to "
           "(q.to(s).to(own), (q*q).to(own**2), q.in_base().to(own), conversion to a symbol only the other side's registry has: same refusal); "
-          "histories also through the registry's JSON text (same text loaded several times), Unit.copy(deep=True), copy.deepcopy / copy.copy of the registry. Enumerated, not solved: subjects, routes, argument forms, histories, follow-up "
+          "histories also through the registry's JSON text (same text loaded several times), Unit.copy(deep=True), copy.deepcopy / copy.copy of the registry; "
+          "(d) KINDS OF TABLE ROWS - a custom registry (world regspell, also as a cgs registry and as a cast of the JSON / pickle / deepcopy histories) whose user rows are spelled like an SI prefix in front of a "
+          "prefixable symbol of the same table (user-defined: kxlp, Mxlp next to prefixable xlp, uxlp; built-in: cs, nm) with a scale / dimension of their own, "
+          "next to the genuinely derived spellings (mxlp, kuxlp, km), a custom dimensionless symbol and a row with a tex_repr: every such symbol is a subject on every "
+          "persistence mechanism; (e) PROVENANCE OF THE ORIGINAL'S UNIT - the subject's unit is not parsed from its string but left by arithmetic and bound to a custom registry "
+          "(builders: Unit(registry=reg), u/u, units of q/q, (u*u)/u, (u**2)**0.5, sqrt(q*q), units of a conversion result, Unit.copy()) and then persisted; follow-ups "
+          "resolve custom symbols of the original's registry (custom dimensionless xnd, prefix-spelled kxlp) in the registry the RESTORED object is bound to. Enumerated, not solved: subjects, routes, argument forms, histories, follow-up "
           "operations, partner units, order. NOT a solver statement: "
           "that the stored numbers survive pickle/savetxt (concrete byte-wise comparison on a fixed set of arrays, performed and "
           "reported as ground checks) and that registry tables survive (concrete row-by-row comparison). Copies that can carry terms "
@@ -73,7 +79,12 @@ EXPLANATION = (
     "registry must still have the unit system and the rows (scale, dimensions, offset, prefixable of every symbol) that the original's registry had "
     "at the moment of the restoration - whatever was edited elsewhere since. Follow-ups of the histories include two-step programs (family chain): "
     "conversion to the partner / to base units / product, then a conversion to a unit given as a STRING, which the library resolves in the registry "
-    "the intermediate result is bound to; and conversions to the symbol that only an edited registry has (must be refused alike)."
+    "the intermediate result is bound to; and conversions to the symbol that only an edited registry has (must be refused alike). "
+    "Row kinds and provenance (subjects <kind>:regspell.<symbol> and <kind>:<world>.<builder>(<symbol>)): the table of world regspell holds user rows whose names read as SI prefix + "
+    "prefixable symbol but mean something else (an exact table key has precedence in unyt's lookup), so a route that re-derives, prunes or re-reads such rows changes scale or dimensions "
+    "of the restored unit; subjects built by BUILDERS get their unit from arithmetic in a custom registry (the null unit of that registry in particular), so a route that writes the unit "
+    "as text has to bring it back bound to an equal registry - the follow-ups to(str) / in_units / chains with a custom partner symbol are refused on the restored side otherwise; all "
+    "of them run through the same differential battery with z3-real payloads and the registry-table comparison."
 )
 BOUNDS = {
     "quick": "17 subjects (table units: degree arcmin | K degC delta_degC | dB | dimensionless | C | m | km/s; custom registries: added xla, prefixed kxlp, "
@@ -94,7 +105,10 @@ BOUNDS = {
              "x 13 follow-ups per restored member (in_base, in_cgs, get_base_equivalent, to(str), to(Unit), + partner, describe, the two-step chains "
              "to(str)>to(own), mul>to(own**2), in_base>to(own), to(str)>to(late symbol), reparse>in_base, and to(removed symbol)), restored-first order for 3 histories on pickle 5, "
              "fresh-world reference for every history that edits an original; "
-             "+ 260 registry-table cases (one per subject x route / form); + 150 concrete value round-trip cases",
+             "ROW KINDS / PROVENANCE: 10 more subjects (regspell: kxlp, cs, nm, Mxlp, xnd; null unit of regspell, u/u in regadd and in the default registry, units of q/q in the cgs registry, (u*u)/u in regadd) "
+             "x 6 routes (pickle 5 of quantity - both orders - and of Unit, deepcopy / copy of the symbolic quantity, str, JSON) x the per-kind families with partners that are custom symbols "
+             "(xnd, kxlp, xlp, mxlp); + the JSON history cast kxlp@regspell | kxlp@regadd (derived) | nm@regspell x 20 histories; "
+             "+ 320 registry-table cases (one per subject x route / form); + 150 concrete value round-trip cases",
     "thorough": "57 subjects (adds rad lat mas degF R delta_degF mK kdegC Np B percent statC T G A V ohm Msun erg s, 9 compounds, more "
                 "units of the custom / modified / cgs registries) x 7 routes for every added subject (15 for the 17 subjects of the quick tier), all 32 routes (pickle 2,3,4,5 of Unit / quantity / array, nested "
                 "containers, deepcopy of array / nested, copy.copy, q.copy(), repr, 5 usecols forms) for one subject per (kind, registry) x full families (trig 4, exp 2, "
@@ -108,7 +122,10 @@ BOUNDS = {
                 "x the 20 quick histories, 37 follow-ups per restored member (20 of the one-step battery, 15 of the chain family, 2 on the removed symbol); 6 more casts "
                 "(xla cgs / mks twins, erg vs J, km/s, degC, C / statC, modified pc) x {pickle 5, deepcopy of quantity} x 45 histories x 13 follow-ups; the 3 mks casts x registry JSON "
                 "x 45 histories x 37 follow-ups; restored-first order on {pickle 5, deepcopy of quantity, JSON} for the histories without registry edits, fresh-world reference for "
-                "every history that edits an original; + 1071 registry-table cases; + 224 concrete value round-trip cases",
+                "every history that edits an original; ROW KINDS / PROVENANCE: 26 subjects (adds derived spellings mxlp, kuxlp, compounds kxlp/cs, nm/kxlp, the cgs twin of regspell, "
+                "builders root, qsqrt, conv, unitcopy, null / ratio / qratio in regadd, regcgs, regspell and the default registry, also for temperature and angle symbols) x 9 routes "
+                "(adds pickle 2, Unit.copy(deep), repr) x full families, both orders on pickle 5 / deepcopy of the quantity; + the pickle / deepcopy history cast "
+                "kxlp@regspell-cgs | regadd | regspell x 45 histories; + 1305 registry-table cases; + 224 concrete value round-trip cases",
 }
 OUTSIDE = ("PARTIAL. Not solver statements: (1) the persistence step itself is concrete - that stored NUMBERS survive pickle / savetxt / copies is a byte-wise "
            "comparison on 8 fixed arrays (float64 incl. inf/nan/denormal/strided/empty, float32, int64) x 10 routes (ground checks; the symbolic battery "
@@ -121,7 +138,9 @@ OUTSIDE = ("PARTIAL. Not solver statements: (1) the persistence step itself is c
            "listed kinds (x3 rescale of one symbol, one added length symbol, both, removal of smoot); histories through by-reference copies (copy.copy / "
            "q.copy() / Unit.copy() share the registry object BY DESIGN, an edit on either side is meant to show on the other), through text files (loadtxt reads in "
            "the default registry) and histories longer than four steps are outside; JSON histories are walked in mks registries only (the JSON text does not carry the "
-           "unit system: known finding); what a registry edit does to the EDITED object itself, and to units made before the edit, is C12/C13. "
+           "unit system: known finding); what a registry edit does to the EDITED object itself, and to units made before the edit, is C12/C13; "
+           "row kinds are the listed ones (prefix-spelled rows over two user-defined prefixable symbols and the built-in s, m; one custom dimensionless row; one tex_repr row), provenance is the 9 listed builders over "
+           "single symbols - longer derivations, and provenance within the restoration histories, are outside. "
            "Outside altogether: pickle protocols 0 and 1 (sympy refuses them with "
            "NotImplementedError - checked that the refusal is loud); loadtxt(usecols=<bare int>) (documented as a sequence; refused with TypeError); savetxt/loadtxt of custom-registry units (loadtxt reads names in the default "
            "registry); HDF5 (h5py absent), dask arrays; the `name` attribute of arrays; raw hash values of units of different registries (they depend on "
@@ -135,7 +154,8 @@ ASSUMPTIONS = ["C11: the payload of the restored quantity is a separate symbol c
 CONFORM = {"quick": 40, "thorough": 120}
 BATCH_REPLAY = True  # every case clears the lru caches itself and builds its own registries: replays are independent within one interpreter
 
-NAMES = ["xla", "xlp", "xto", "xga", "xlg", "xtd", "xhn"]
+NAMES = ["xla", "xlp", "xto", "xga", "xlg", "xtd", "xhn", "xnd"]
+# (the rows of world `regspell` whose names DO read as SI prefix + prefixable symbol - kxlp, Mxlp, cs, nm - are that on purpose: see _world_spell)
 
 # ---------------------------------------------------------------------------------------------------------------- worlds
 
@@ -154,6 +174,7 @@ def _world_add(ctx, unit_system=None):
     reg.add("xtd", 0.5, D.temperature)
     reg.add("xga", 0.125, D.angle)
     reg.add("xlg", 1.0, D.logarithmic)
+    reg.add("xnd", 0.01, D.dimensionless)
     return reg
 
 
@@ -170,6 +191,25 @@ def _world_cgs(ctx, unit_system="cgs"):
     UR, D = ctx.mods["UR"], ctx.mods["unyt"].dimensions
     reg = UR.UnitRegistry(unit_system=unit_system) if unit_system else UR.UnitRegistry()
     reg.add("xla", 2.5, D.length)
+    reg.add("xnd", 0.01, D.dimensionless)
+    return reg
+
+
+def _world_spell(ctx, unit_system=None):
+    """custom registry whose table holds the KINDS OF ROWS a user can make, in particular rows whose names SPELL like an SI prefix in
+    front of a prefixable symbol of the same table (user-defined or built-in). An exact table key has precedence over the prefix
+    reading (UnitRegistry.__getitem__ / _lookup_unit_symbol), so these are symbols of their own with their own scale / dimensions
+    and must come back as such; the genuinely derived spellings (mxlp, km) must keep agreeing too"""
+    UR, D = ctx.mods["UR"], ctx.mods["unyt"].dimensions
+    reg = UR.UnitRegistry() if unit_system is None else UR.UnitRegistry(unit_system=unit_system)
+    reg.add("xlp", 0.25, D.length, prefixable=True)
+    reg.add("kxlp", 7.0, D.length)                        # the prefix reading would be 250 m
+    reg.add("Mxlp", 3.0, D.mass)                          # ... a length of 250 km
+    reg.add("cs", 340.0, D.length / D.time)               # a sound speed; the prefix reading is the centisecond
+    reg.add("nm", 1852.0, D.length)                       # a nautical mile; the prefix reading is the nanometre
+    reg.add("uxlp", 0.5, D.length, prefixable=True)       # own prefixable row spelled micro-xlp: kuxlp is derived from IT
+    reg.add("xnd", 0.01, D.dimensionless)
+    reg.add("xla", 2.5, D.length, tex_repr=r"\ell_{a}")
     return reg
 
 
@@ -182,14 +222,18 @@ WORLDS = {"default": _world_default, "regadd": _world_add, "regmod": _world_mod,
           # twins for the restoration histories: equal tables, different unit systems
           "cgs0": _world_bare("cgs"), "imp0": _world_bare("imperial"), "mks0": _world_bare("mks"),
           "regaddcgs": lambda ctx: _world_add(ctx, "cgs"), "regaddimp": lambda ctx: _world_add(ctx, "imperial"),
-          "regxla": lambda ctx: _world_cgs(ctx, None)}
+          "regxla": lambda ctx: _world_cgs(ctx, None),
+          "regspell": _world_spell, "regspellcgs": lambda ctx: _world_spell(ctx, "cgs")}
 
 
 class Subject:
-    def __init__(self, kind, ustr, world="default", partners=(), targets=(), tag=None):
+    def __init__(self, kind, ustr, world="default", partners=(), targets=(), tag=None, build="str"):
         self.kind, self.ustr, self.world = kind, ustr, world
         self.partners, self.targets = list(partners), list(targets)
+        self.build = build     # PROVENANCE of the original's unit: parsed from the string, or the result of unit / quantity arithmetic
         self.tag = tag or ustr.replace("/", "_per_").replace("*", ".")
+        if build != "str":
+            self.tag = f"{build}({self.tag})"
 
     @property
     def id(self):
@@ -205,6 +249,35 @@ HI = pickle.HIGHEST_PROTOCOL
 def _mk_unit(ctx, ustr, reg):
     Unit = ctx.mods["unyt"].Unit
     return Unit(ustr, registry=reg) if reg is not None else Unit(ustr)
+
+
+def _null(ctx, s, reg):
+    Unit = ctx.mods["unyt"].Unit
+    return Unit(registry=reg) if reg is not None else Unit()
+
+
+def _q1(ctx, s, reg, v=1.0):
+    return ctx.mods["unyt"].unyt_quantity(v, _mk_unit(ctx, s, reg))
+
+
+# PROVENANCE of the subject's unit: how the ORIGINAL got it. A unit that was never parsed from its own string (the null unit of a
+# custom registry left by a ratio, a unit left by products / roots / conversions) is still bound to the registry of its operands;
+# whatever route writes the unit as text and parses it again has to bring it back bound to an equal registry
+BUILDERS = {
+    "str": _mk_unit,
+    "null": _null,                                                                   # Unit(registry=reg)
+    "ratio": lambda ctx, s, reg: _mk_unit(ctx, s, reg) / _mk_unit(ctx, s, reg),      # u / u   (null unit for an atomic u)
+    "qratio": lambda ctx, s, reg: (_q1(ctx, s, reg, 3.0) / _q1(ctx, s, reg, 2.0)).units,   # units of q / q
+    "muldiv": lambda ctx, s, reg: (_mk_unit(ctx, s, reg) * _mk_unit(ctx, s, reg)) / _mk_unit(ctx, s, reg),
+    "root": lambda ctx, s, reg: (_mk_unit(ctx, s, reg) ** 2) ** 0.5,
+    "qsqrt": lambda ctx, s, reg: np.sqrt(_q1(ctx, s, reg, 4.0) * _q1(ctx, s, reg, 9.0)).units,
+    "conv": lambda ctx, s, reg: _q1(ctx, s, reg).in_base().to(s).units,              # units of a conversion result
+    "unitcopy": lambda ctx, s, reg: _mk_unit(ctx, s, reg).copy(),
+}
+
+
+def _build_unit(ctx, subj, reg):
+    return BUILDERS[subj.build](ctx, subj.ustr, reg)
 
 
 def _qty(ctx, u, arr=False):
@@ -728,7 +801,7 @@ class World:
 
     def __init__(self, ctx, subj, route, partner, pmode, persist=True):
         self.reg = WORLDS[subj.world](ctx)
-        self.u = _mk_unit(ctx, subj.ustr, self.reg)
+        self.u = _build_unit(ctx, subj, self.reg)
         self.PU = {}
         if partner is not None:
             self.PU[partner] = _mk_unit(ctx, partner, self.reg)
@@ -1151,6 +1224,7 @@ CASTS_THOROUGH_EXTRA = [
     Cast("degC@cgs|mks|imperial", ("cgs0", "degC"), ("default", "degC"), ("imp0", "degC"), "K", "degC", kind="temp"),
     Cast("C@cgs|mks|statC@cgs", ("cgs0", "C"), ("default", "C"), ("cgs0", "statC"), "A*s", "C", kind="em"),
     Cast("pc@mod|add|mks", ("regmod", "pc"), ("regadd", "pc"), ("default", "pc"), "kpc", "pc"),
+    Cast("kxlp@spellcgs|add|spell", ("regspellcgs", "kxlp"), ("regadd", "kxlp"), ("regspell", "kxlp"), "xlp", "xlp"),
 ]
 # registries restored from their JSON text: the text carries the table only (not the unit system: known finding), so the casts of the
 # JSON histories live in mks registries; S / D (and default / mks0) dump the SAME text, C another one
@@ -1158,6 +1232,8 @@ CASTS_JSON = [
     Cast("xla@add|mod|add", ("regadd", "xla"), ("regmod", "xla"), ("regadd", "xla"), "pc", "xla"),
     Cast("kxlp@add|mod|xla", ("regadd", "kxlp"), ("regmod", "kxlp"), ("regxla", "km"), "xla", "xlp"),
     Cast("km@mks0|default|xla", ("mks0", "km"), ("default", "km"), ("regxla", "km"), "m", "m"),
+    # rows spelled like prefix + prefixable symbol: kxlp is a row of its own in S / D (7 m) and the derived kilo-xlp (250 m) in C
+    Cast("kxlp@spell|add|nm@spell", ("regspell", "kxlp"), ("regadd", "kxlp"), ("regspell", "nm"), "xlp", "xlp"),
 ]
 HROUTES_QUICK = [f"graph:pickle{HI}.qty", "graph:pickle2.qty", "graph:deepcopy.qty", f"graph:pickle{HI}.unit"]
 HROUTES_RO_QUICK = {f"graph:pickle{HI}.qty"}
@@ -1304,8 +1380,8 @@ def make_protocol01_case(proto, what):
 
 # ---------------------------------------------------------------------------------------------------------------- catalogue
 
-def S(kind, ustr, world="default", partners=(), tag=None):
-    return Subject(kind, ustr, world, partners, tag=tag)
+def S(kind, ustr, world="default", partners=(), tag=None, build="str"):
+    return Subject(kind, ustr, world, partners, tag=tag, build=build)
 
 
 # families of follow-up operations: (quick list, extra operations of the thorough tier)
@@ -1350,6 +1426,29 @@ SUBJECTS_QUICK = [
     S("plain", "xla", "regmod", partners=["pc"]), S("plain", "pc", "regmod", partners=["kpc", "m"]),
     S("plain", "xla", "regcgs", partners=["cm"]),
 ]
+# two further axes, walked over the custom registries: (a) KINDS OF TABLE ROWS (world regspell: rows spelled like SI prefix + prefixable
+# symbol with a meaning of their own, next to genuinely derived spellings; custom dimensionless symbol; tex_repr) and (b) PROVENANCE of
+# the original's unit (null unit / unit left by arithmetic, bound to a custom registry without ever having been parsed from its string)
+SUBJECTS_AXES_QUICK = [
+    S("plain", "kxlp", "regspell", partners=["xlp", "m"]), S("compound", "cs", "regspell", partners=["m/s"]),
+    S("plain", "nm", "regspell", partners=["km", "mxlp"]), S("plain", "Mxlp", "regspell", partners=["kg"]),
+    S("nodim", "xnd", "regspell", partners=["dimensionless", "percent"]),
+    S("nodim", "xla", "regadd", partners=["xnd", "percent"], build="ratio"), S("nodim", "xla", "regcgs", partners=["xnd"], build="qratio"),
+    S("nodim", "", "regspell", partners=["xnd"], build="null", tag="reg"), S("nodim", "m", partners=["percent"], build="ratio"),
+    S("plain", "xla", "regadd", partners=["kxlp"], build="muldiv"),
+]
+SUBJECTS_AXES_THOROUGH_EXTRA = [
+    S("plain", "mxlp", "regspell", partners=["xlp", "kxlp"]), S("plain", "kuxlp", "regspell", partners=["uxlp", "xlp"]),
+    S("compound", "kxlp/cs", "regspell", partners=["s"]),
+    S("plain", "kxlp", "regspellcgs", partners=["cm"]), S("nodim", "nm/kxlp", "regspell", partners=["xnd"]),
+    S("nodim", "xla", "regadd", partners=["xnd"], build="qratio"), S("nodim", "", "regcgs", partners=["xnd"], build="null", tag="reg"),
+    S("nodim", "kxlp", "regspell", partners=["xnd"], build="ratio"),
+    S("nodim", "", partners=["percent"], build="null", tag="reg"), S("nodim", "xla/m", "regadd", partners=["xnd"]),
+    S("plain", "xla", "regadd", partners=["kxlp"], build="root"), S("plain", "kxlp", "regspell", partners=["xlp"], build="qsqrt"),
+    S("plain", "xla", "regcgs", partners=["cm"], build="conv"),
+    S("plain", "xla", "regmod", partners=["pc"], build="unitcopy"), S("temp", "xto", "regadd", partners=["K"], build="conv"),
+    S("angle", "xga", "regadd", partners=["degree"], build="root"),
+]
 SUBJECTS_THOROUGH_EXTRA = [
     S("angle", "rad", partners=["degree"]), S("angle", "lat", partners=["lon", "degree"]), S("angle", "mas", partners=["arcsec"]),
     S("temp", "degF", partners=["degC", "delta_degF"]), S("temp", "R", partners=["degF", "K"]), S("temp", "delta_degF", partners=["degF", "delta_degC"]),
@@ -1376,6 +1475,9 @@ ROUTES_QUICK = ["graph:pickle2.qty", f"graph:pickle{HI}.qty", f"graph:pickle{HI}
 ROUTES_COLS_QUICK = ["text:savetxt.cols(2,0)", "text:savetxt.cols(1,)"]
 ROUTES_COLS = [r for r in ROUTES if r.startswith("text:savetxt.cols")]
 ROUTES_QUICK_BOTH_ORDERS = {f"graph:pickle{HI}.qty", f"graph:pickle{HI}.unit", "graph:deepcopy.symq"}
+# subjects of the row-kind / provenance axes: every persistence mechanism once (quick); both orders on the pickled quantity
+ROUTES_AXES_QUICK = [f"graph:pickle{HI}.qty", f"graph:pickle{HI}.unit", "graph:deepcopy.symq", "ref:copy.symq", "text:str", "text:json"]
+ROUTES_AXES_THOROUGH = ROUTES_AXES_QUICK + ["graph:pickle2.qty", "graph:unitcopy.deep", "text:repr"]
 # thorough, subjects added by the thorough tier
 ROUTES_EXTRA = [f"graph:pickle{HI}.qty", f"graph:pickle{HI}.unit", "graph:deepcopy.qty", "graph:unitcopy.deep", "ref:unitcopy", "text:str", "text:json"]
 # thorough, subjects of the quick tier
@@ -1412,10 +1514,15 @@ def cases(tier, mods):
             seen.add(key)
             all_ids.add(s.id)
     subjects = SUBJECTS_QUICK + (SUBJECTS_THOROUGH_EXTRA if thorough else [])
-    for s in subjects:
+    axes = SUBJECTS_AXES_QUICK + (SUBJECTS_AXES_THOROUGH_EXTRA if thorough else [])
+    axes_ids = {s.id for s in axes}
+    assert len(axes_ids) == len(axes) and not axes_ids & {s.id for s in subjects}
+    for s in subjects + axes:
         fq, ft = KIND_FAMILIES[s.kind]
         fams = fq + (ft if thorough else [])
-        if not thorough:
+        if s.id in axes_ids:
+            routes = ROUTES_AXES_THOROUGH if thorough else ROUTES_AXES_QUICK
+        elif not thorough:
             routes = ROUTES_QUICK
         else:
             routes = [r for r in ROUTES if r not in FILE_ROUTES] if s.id in all_ids else (ROUTES_CORE if s.id in quick_ids else ROUTES_EXTRA)
@@ -1424,7 +1531,9 @@ def cases(tier, mods):
         for route in _routes_for(s, routes):
             out.append(make_registry_case(s, route))
             heavy = route.startswith("graph:")
-            if thorough:
+            if s.id in axes_ids:
+                orders = ("OR", "RO") if route == f"graph:pickle{HI}.qty" or (thorough and route == "graph:deepcopy.symq") else ("OR",)
+            elif thorough:
                 # by-reference and text routes hand back the very same objects in most cases: second order only for the all_ids subjects
                 orders = ("OR", "RO") if (heavy or s.id in all_ids) else ("OR",)
             else:
